@@ -141,6 +141,36 @@ def concretize(run, model, seed_env=None):
             env[v] = r.eval({u: val(u) for u in r.vars()})
     return env
 
+def candidate_vectors(run, n):
+    """input vectors satisfying the harness assumptions: all-max, all-min, per-limb extremes, random"""
+    import random
+    ctx = run.ctx
+    rnd = random.Random(int(os.environ.get("VERIF_SEED", "0") or 0) + 777)
+    names = []
+    for name, (layout, limbs, p) in run.inputs.items():
+        for x in limbs:
+            if x.is_const(): continue
+            (m, c), = x.t.items(); names.append(m[0])
+    out = []
+    def ok(env):
+        for a in ctx.assume:
+            try:
+                if not _eval_cond_env(a, env): return False
+            except KeyError: return False
+        return True
+    modes = ["max", "min"] + ["rand"] * (n // 2) + ["edge"] * (n // 2)
+    for mode in modes:
+        env = {}
+        for v in names:
+            lo, hi = ctx.bounds.get(v, (0, 0))
+            if mode == "max": env[v] = hi
+            elif mode == "min": env[v] = lo
+            elif mode == "rand": env[v] = rnd.randint(lo, hi)
+            else: env[v] = rnd.choice([hi, hi, hi - rnd.randint(0, 3), lo, (hi + 1) // 2, rnd.randint(lo, hi)])
+            env[v] = min(max(env[v], lo), hi)
+        if ok(env): out.append(env)
+    return out
+
 def native_outputs(nat, run_c, env):
     """run the natively compiled wrapper on the concrete inputs of run_c. nat = (config, fn, out_layout, profile)"""
     from vp import native
@@ -181,7 +211,12 @@ def encoder_selftest(run, pr, roots, rebuild, model, timeout_s, nat=None):
         if ok: vectors.append((tag, env))
     res = dict(ok=True, vectors=[], method="shadow execution: constraint system evaluated under concrete digit values")
     for tag, env in vectors:
-        rc, gc, oc = rebuild(concrete=env)
+        try:
+            rc, gc, oc = rebuild(concrete=env)
+        except lsym.PanicReached as e:
+            res["ok"] = False; res["panic_witness"] = dict(vector=tag, inputs=env, panic=str(e))
+            res["why"] = "concrete execution of admissible vector %s panics: %s" % (tag, e)
+            return res
         outs_c = [x.cval() for x in oc]
         rs, gs, osym = rebuild(shadow=env)
         sh = rs.ctx.shadow; c2 = rs.ctx
@@ -247,7 +282,11 @@ def discharge(rep, run, name, goals, roots, config, fn, bounds_note, timeout_s=6
         if selftest is not None and status == "ok":
             st = encoder_selftest(run, pr, roots, selftest, vac[1], timeout_s, nat=nat)
             rec["encoder_selftest"] = st
-            if not st["ok"]: status = "inconclusive"; rec["why"] = "encoder self-test failed: " + st.get("why", "")
+            if not st["ok"] and "panic_witness" in st:
+                status = "violation"; rec["why"] = st["why"]
+                rec["goals"].append(dict(goal="no panic on admissible inputs (checked build)", verdict="sat", solver_s=0.0, cases=1, solver_calls=0,
+                                         model=st["panic_witness"]["inputs"], replay=dict(llsym_concrete="panic: " + st["panic_witness"]["panic"]), reproduced=True))
+            elif not st["ok"]: status = "inconclusive"; rec["why"] = "encoder self-test failed: " + st.get("why", "")
         for gname, viol in goals:
             v, model, dt, info = pr.check(viol, timeout_s=timeout_s, also=solvers_also)
             g = dict(goal=gname, verdict=v, solver_s=round(dt, 3), **info)
@@ -270,6 +309,28 @@ def discharge(rep, run, name, goals, roots, config, fn, bounds_note, timeout_s=6
                         except Exception as e:
                             detail["native_error"] = str(e)[:200]
                     g["replay"] = detail
+                    if not ok:
+                        # product atoms are over-approximated: search corner / random vectors for a real witness
+                        for cand in candidate_vectors(run, 96):
+                            try:
+                                ok2, det2 = replay(cand, gname)
+                            except lsym.PanicReached as e:
+                                ok2, det2 = True, dict(llsym_concrete="panic reached: " + str(e))
+                            except Exception:
+                                continue
+                            if ok2:
+                                ok, detail, env = True, det2, cand
+                                g["model"] = {k: cand[k] for k in sorted(cand)}; g["replay"] = det2; g["witness_source"] = "corner/random vector search"
+                                if nat is not None and selftest is not None and isinstance(det2, dict) and "llsym_concrete_outputs" in det2:
+                                    try:
+                                        rc2, _, _ = selftest(concrete=cand)
+                                        no, err = native_outputs(nat, rc2, cand)
+                                        det2["native_outputs"] = no if no is not None else err
+                                        det2["native_call"] = getattr(native_outputs, "last_call", None)
+                                        if no is not None and no != det2["llsym_concrete_outputs"]: ok = False
+                                    except Exception as e:
+                                        det2["native_error"] = str(e)[:200]
+                                if ok: break
                     if ok: status = "violation"; g["reproduced"] = True
                     else:
                         g["reproduced"] = False
@@ -283,7 +344,7 @@ def discharge(rep, run, name, goals, roots, config, fn, bounds_note, timeout_s=6
     except ir.Unsupported as e:
         rec["status"] = "inconclusive"; rec["why"] = "unsupported IR: " + str(e)
     except lsym.PanicReached as e:
-        rec["status"] = "inconclusive"; rec["why"] = "panic reached unconditionally: " + str(e)
+        rec["status"] = "inconclusive"; rec["why"] = "panic reached on every path of the symbolic run: " + str(e)
     rec["wall_s"] = round(time.time() - t0, 3)
     rep.add(**rec)
     return rec
